@@ -38,9 +38,35 @@ func subjID(i int) uuid.UUID { return uuid.NewV5(uuid.Nil, subjNames[i]) }
 type cfgShape struct {
 	name      string
 	rels      []string // all declared relation names, in order (index = rel id)
+	relNS     []string // namespace of each relation (nil: all in namespace N)
 	ns        *namespace.Namespace
+	nss       []*namespace.Namespace // multi-namespace configurations (C11); nil: just ns
 	hasNot    bool
 	recursive bool
+}
+
+func (s *cfgShape) nsOf(rel int) string {
+	if s.relNS == nil {
+		return nsN
+	}
+	return s.relNS[rel]
+}
+
+func (s *cfgShape) namespaces() []*namespace.Namespace {
+	if s.nss != nil {
+		return s.nss
+	}
+	return []*namespace.Namespace{s.ns}
+}
+
+// relIndexNS finds the relation index of (namespace, relation name).
+func (s *cfgShape) relIndexNS(ns, name string) int {
+	for i, r := range s.rels {
+		if r == name && s.nsOf(i) == ns {
+			return i
+		}
+	}
+	return -1
 }
 
 func inc(r string) ast.Child  { return &ast.ComputedSubjectSet{Relation: r} }
@@ -330,9 +356,17 @@ func (s *cfgShape) relIndex(name string) int {
 }
 
 func (s *cfgShape) relation(i int) *ast.Relation {
-	for k := range s.ns.Relations {
-		if s.ns.Relations[k].Name == s.rels[i] {
-			return &s.ns.Relations[k]
+	if i < 0 {
+		return nil
+	}
+	for _, n := range s.namespaces() {
+		if n.Name != s.nsOf(i) {
+			continue
+		}
+		for k := range n.Relations {
+			if n.Relations[k].Name == s.rels[i] {
+				return &n.Relations[k]
+			}
 		}
 	}
 	return nil
@@ -359,6 +393,7 @@ type subject struct {
 }
 
 type world struct {
+	opl     string // when set: the OPL document the configuration was parsed from (native replay uses it)
 	shape   *cfgShape
 	strict  bool
 	nObj    int
@@ -385,13 +420,13 @@ func symRows(k, nObj, nRel int) []row {
 
 func (w *world) subjectValue(s subject) relationtuple.Subject {
 	if s.isSet {
-		return &relationtuple.SubjectSet{Namespace: nsN, Object: objID(s.sobj), Relation: w.shape.rels[s.srel]}
+		return &relationtuple.SubjectSet{Namespace: w.shape.nsOf(s.srel), Object: objID(s.sobj), Relation: w.shape.rels[s.srel]}
 	}
 	return &relationtuple.SubjectID{ID: subjID(s.sid)}
 }
 
 func (w *world) tuple(obj, rel int, s subject) *relationtuple.RelationTuple {
-	return &relationtuple.RelationTuple{Namespace: nsN, Object: objID(obj), Relation: w.shape.rels[rel], Subject: w.subjectValue(s)}
+	return &relationtuple.RelationTuple{Namespace: w.shape.nsOf(rel), Object: objID(obj), Relation: w.shape.rels[rel], Subject: w.subjectValue(s)}
 }
 
 // ---------------------------------------------------------------------------
